@@ -25,7 +25,8 @@ class Scenario:
 
     def __init__(self, source, signals=(), mode="run", layout=None, default_answer=None, answers=None,
                  fail_at=(), layout_at=None, override_write=True, max_rows=2000, show_vars=False, echo=False,
-                 load=None, repeat_parse=1, render=False, stop_on_err=True, note=""):
+                 load=None, repeat_parse=1, render=False, stop_on_err=True, note="", expect=None):
+        self.expect = expect or {}
         self.source = source
         self.signals = list(signals)   # (kind, name, bits, default) kind in in/out/bidir; default int|'Z'|None
         self.mode = mode
@@ -78,7 +79,8 @@ class Scenario:
                 "default_answer": self.default_answer, "answers": {str(k): v for k, v in self.answers.items()},
                 "fail_at": self.fail_at, "layout_at": {str(k): v for k, v in self.layout_at.items()},
                 "override_write": self.override_write, "note": self.note, "echo": self.echo,
-                "load": self.load, "repeat_parse": self.repeat_parse, "scenario_text": self.text()}
+                "load": self.load, "repeat_parse": self.repeat_parse, "expect": self.expect,
+                "scenario_text": self.text()}
 
 
 class Observation:
